@@ -207,8 +207,53 @@ func VfC11Add() {
 	n := vf.Choose(vf.Param("N") + 1)
 	limit := vf.Choose(2)
 	rt := vfTable(n, vf.Param("H"), limit)
-	before := vfSnapshot(rt)
 	ne := vfEntry(rt, vf.Param("H"))
+	vfAddCheck(rt, ne, limit)
+}
+
+// VfC11AddTop3: the same for the "full destination" case: the table already
+// holds three gossip routes to the destination of the new route, followed by a
+// route to another destination.
+func VfC11AddTop3() {
+	limit := vf.Choose(2)
+	rt := NewRoutingTable(RoutingTableConfig{
+		RoutablePrefixes: []RoutablePrefix{{BasePrefix: BaseNetPrefix, RoutingBits: ContinentPrefixBits, EntriesPerPrefix: limit}},
+		RouterIP:         vfAddr11(),
+	})
+	d, other := vfAddr11(), vfAddr11()
+	vf.Assume(d != other)
+	mk := func(dst netip.Addr, hops int) *RoutingTableEntry {
+		e := &RoutingTableEntry{DstIP: dst, NextHop: vfAddr11(), Source: RouteSourceGossip, Expires: vf.TimeSec()}
+		e.Path.Hops = make([]SwitchHop, hops)
+		for i := range e.Path.Hops {
+			e.Path.Hops[i].Router = vfAddr11()
+			e.Path.Hops[i].Delay = vf.U16()
+			if i < hops-1 {
+				e.Path.Hops[i].ForwardLabel = SwitchLabel(1 + vf.U8()%100)
+			}
+			if i > 0 {
+				e.Path.Hops[i].ReturnLabel = SwitchLabel(1 + vf.U8()%100)
+			}
+		}
+		e.Path.Hops[hops-1].Router = dst
+		e.Path.CalculateTotals()
+		rp, ok := rt.getRoutablePrefixConfig(dst)
+		vf.Assume(ok)
+		e.RoutingPrefix, _ = dst.Prefix(rp.RoutingBits)
+		return e
+	}
+	// three different routes to d (a 2-hop route and two 3-hop routes over different routers), then a route elsewhere
+	rt.entries = append(rt.entries, mk(d, 2), mk(d, 3), mk(d, 3), mk(other, 2))
+	vf.Assume(rt.entries[1].Path.Hops[1].Router != rt.entries[2].Path.Hops[1].Router)
+	vf.Assume(vfR(rt))
+	ne := mk(d, 3)
+	vf.Assume(ne.Path.Hops[1].Router != rt.entries[1].Path.Hops[1].Router && ne.Path.Hops[1].Router != rt.entries[2].Path.Hops[1].Router)
+	vf.Reach("full-destination")
+	vfAddCheck(rt, ne, limit)
+}
+
+func vfAddCheck(rt *RoutingTable, ne *RoutingTableEntry, limit int) {
+	before := vfSnapshot(rt)
 	arg := *ne
 	added, err := rt.AddRoute(arg)
 	if err != nil || !added {
@@ -242,6 +287,23 @@ func VfC11Add() {
 		vf.Assert(still, "peer-route-evicted-by-add")
 	}
 	vf.Assert(len(rt.entries) <= len(before)+1, "add-grew-table-by-more-than-one")
+	// bounded size: a gossip route to a destination the table did not have yet is admitted only
+	// while its routing prefix holds at most twice the configured number of entries
+	if arg.Source == RouteSourceGossip {
+		hadDst, inPrefix := false, 0
+		for _, b := range before {
+			if b.DstIP == arg.DstIP {
+				hadDst = true
+			}
+			if b.RoutingPrefix == ne.RoutingPrefix {
+				inPrefix++
+			}
+		}
+		if !hadDst {
+			vf.Assert(inPrefix <= 2*limit, "gossip-destination-admitted-beyond-prefix-limit")
+			vf.Reach("new-gossip-destination")
+		}
+	}
 	vf.Reach("added")
 }
 
